@@ -196,11 +196,20 @@ fn cc_one(path: &[(autosar_data::ElementName, autosar_data_specification::Elemen
             }
         }
     }
-    // (3) duplicate the single-file model, (4) then the same model with a second file of another version
-    for round in 0..2 {
-        let mut second: Option<(ArxmlFile, String)> = None;
+    // (3) duplicate the single-file model, (3b) the same model with a second file of the SAME version that shares the top-level package
+    // and splits it below that level (an element and a sub-package that belong to the second file only), (4) then with a further file
+    // of another version
+    let mut extra: Vec<(ArxmlFile, String)> = Vec::new();
+    for round in 0..3 {
         let mut tag = "";
         if round == 1 {
+            if !(path.len() >= 3 && path[1].0 == ElementName::ArPackages && path[2].0 == ElementName::ArPackage) || rng.below(2) != 0 { continue; }
+            let split = format!("<?xml version=\"1.0\" encoding=\"utf-8\"?>\n<AUTOSAR xsi:schemaLocation=\"http://autosar.org/schema/r4.0 {}\" xmlns=\"http://autosar.org/schema/r4.0\" xmlns:xsi=\"http://www.w3.org/2001/XMLSchema-instance\"><AR-PACKAGES><AR-PACKAGE><SHORT-NAME>n2</SHORT-NAME><ELEMENTS><SYSTEM><SHORT-NAME>zz_split_s</SHORT-NAME></SYSTEM></ELEMENTS><AR-PACKAGES><AR-PACKAGE><SHORT-NAME>zz_split_p</SHORT-NAME></AR-PACKAGE></AR-PACKAGES></AR-PACKAGE></AR-PACKAGES></AUTOSAR>", v.filename());
+            let Ok((f2, _)) = model.load_buffer(split.as_bytes(), "split.arxml", true) else { continue };
+            let t2 = f2.serialize().map_err(|e| e.to_string())?;
+            extra.push((f2, t2));
+        }
+        if round == 2 {
             if rng.below(2) != 0 { break; }
             let all = autosar_data_specification::expand_version_mask(u32::MAX);
             let v2 = all[rng.below(all.len())];
@@ -208,9 +217,10 @@ fn cc_one(path: &[(autosar_data::ElementName, autosar_data_specification::Elemen
             let other = format!("<?xml version=\"1.0\" encoding=\"utf-8\"?>\n<AUTOSAR xsi:schemaLocation=\"http://autosar.org/schema/r4.0 {}\" xmlns=\"http://autosar.org/schema/r4.0\" xmlns:xsi=\"http://www.w3.org/2001/XMLSchema-instance\"><AR-PACKAGES><AR-PACKAGE><SHORT-NAME>zz_other</SHORT-NAME><ELEMENTS><SYSTEM><SHORT-NAME>s</SHORT-NAME></SYSTEM></ELEMENTS></AR-PACKAGE></AR-PACKAGES></AUTOSAR>", v2.filename());
             let Ok((f2, _)) = model.load_buffer(other.as_bytes(), "other.arxml", true) else { break };
             let t2 = f2.serialize().map_err(|e| e.to_string())?;
-            second = Some((f2, t2));
+            extra.push((f2, t2));
             tag = "model with files of different versions: ";
         }
+        for (f2, t2) in extra.iter_mut() { *t2 = f2.serialize().map_err(|e| e.to_string())?; }
         let file_text = file.serialize().map_err(|e| e.to_string())?;
         match model.duplicate() {
             Err(e) => return Err(format!("{}duplicate() of a model built through the API fails [{}; element {} in {}]", tag, e, cur.element_name(), v.filename())),
@@ -218,7 +228,7 @@ fn cc_one(path: &[(autosar_data::ElementName, autosar_data_specification::Elemen
                 stats[2] += 1;
                 for df in dup.files() {
                     let dt = df.serialize().map_err(|e| e.to_string())?;
-                    let want = if df.filename() == file.filename() { Some(&file_text) } else { second.as_ref().filter(|(f2, _)| f2.filename() == df.filename()).map(|(_, t)| t) };
+                    let want = if df.filename() == file.filename() { Some(&file_text) } else { extra.iter().find(|(f2, _)| f2.filename() == df.filename()).map(|(_, t)| t) };
                     match want {
                         Some(w) if *w == dt => {}
                         Some(w) => return Err(format!("{}a file of the duplicated model serializes differently from the original's [{}] :: original {} :: duplicate {}", tag, df.filename().display(), hex(w.as_bytes()), hex(dt.as_bytes()))),
